@@ -128,7 +128,7 @@ def main(argv=None):
     if not a.no_validate:
         from .models import validate
         try:
-            val = validate.run_all(seed)
+            val = validate.run_all(seed, a.tier)
         except Exception as e:      # noqa
             print(f"HARNESS-ERROR property={prop} model validation failed: {e}")
             traceback.print_exc()
